@@ -242,7 +242,12 @@ func seedFrames(t *rapid.T, label string, masked, compressed bool) []byte {
 
 func TestMutFrames(t *testing.T) {
 	consts := frameConsts()
-	m := mutator{consts: consts, special: overwriteLength}
+	m := mutator{consts: consts, special: func(t *rapid.T, b []byte) []byte {
+		if rapid.IntRange(0, 2).Draw(t, "special") == 0 {
+			return setCloseCode(t, b)
+		}
+		return overwriteLength(t, b)
+	}}
 	hx.Check(t, 8, func(t *rapid.T) {
 		ctl := drawCtl(t, frameCtl)
 		ctl[0] = byte(rapid.IntRange(0, len(frameEntries)-1).Draw(t, "entry"))
@@ -704,4 +709,39 @@ func setHeaderValue(head []byte, lowerName, value string) []byte {
 	out := append([]byte(nil), lines[0]...)
 	out = append(out, ins...)
 	return append(out, bytes.Join(lines[1:], nil)...)
+}
+
+var boundaryCloseCodes = []int{0, 1, 999, 1000, 1003, 1004, 1005, 1006, 1007, 1011, 1012, 1013, 1014, 1015, 1016, 1017, 1023, 1024, 1999, 2000, 2999, 3000, 3999, 4000, 4999, 5000, 32767, 32768, 65534, 65535}
+
+// setCloseCode gives a close frame of the stream (or, if it has none, one
+// appended to it) a boundary status code.
+func setCloseCode(t *rapid.T, b []byte) []byte {
+	code := rapid.SampledFrom(boundaryCloseCodes).Draw(t, "closeCode")
+	ws := walk(b)
+	for _, w := range ws {
+		if w.h.Op != ref.OpClose || w.h.Length < 2 || w.hdrEnd+2 > len(b) {
+			continue
+		}
+		out := append([]byte(nil), b...)
+		hi, lo := byte(code>>8), byte(code)
+		if w.h.Masked {
+			hi, lo = hi^w.h.Mask[0], lo^w.h.Mask[1]
+		}
+		out[w.hdrEnd], out[w.hdrEnd+1] = hi, lo
+		return out
+	}
+	masked := len(ws) > 0 && ws[0].h.Masked
+	h := ref.Header{Fin: true, Op: ref.OpClose, Masked: masked}
+	if masked {
+		h.Mask = [4]byte{0x21, 0x43, 0x65, 0x87}
+	}
+	reason := rapid.SampledFrom([]string{"", "bye", "\xff"}).Draw(t, "closeReason")
+	f := ref.Frame{H: h, Payload: append([]byte{byte(code >> 8), byte(code)}, reason...)}
+	// at a frame boundary if the walk found one, else at the end
+	at := len(b)
+	if len(ws) > 0 {
+		k := rapid.IntRange(0, len(ws)-1).Draw(t, "closeAt")
+		at = ws[k].start
+	}
+	return insertAt(b, at, f.Encode())
 }
